@@ -40,7 +40,10 @@ fn base_sequence() -> Vec<Rdh> {
 
 /// Per-RDH verdict of the tool: (E10 reported, E11 reported, all messages at the RDH's offset).
 fn impl_verdicts(seq: &[Rdh], mode: Mode) -> Result<Vec<(bool, bool, bool)>, String> {
-    let cfg = val::mode_cfg(mode);
+    impl_verdicts_cfg(seq, val::mode_cfg(mode))
+}
+
+fn impl_verdicts_cfg(seq: &[Rdh], cfg: &'static fastpasta::config::prelude::MockConfig) -> Result<Vec<(bool, bool, bool)>, String> {
     let packets: Vec<val::RawPacket> = seq.iter().enumerate().map(|(i, r)| (r.encode().to_vec(), vec![], 0x100 * i as u64)).collect();
     let out = val::validate_link(cfg, &packets);
     if let Some(p) = out.panic {
@@ -88,11 +91,22 @@ fn flip(r: &Rdh, bit: usize) -> Rdh {
 }
 
 fn compare(seq: &[Rdh], mode: Mode) -> Option<(String, String)> {
+    compare_cfg(seq, mode, false)
+}
+
+/// `custom`: the same mode with a custom-checks file enabled whose only entry (`chip_count_ob`) concerns no RDH rule -
+/// the RDH verdicts must be those of the rule table all the same (the validator is built along another path then).
+fn compare_cfg(seq: &[Rdh], mode: Mode, custom: bool) -> Option<(String, String)> {
     if !in_scope(seq) {
         return None;
     }
     let want = model_verdicts(seq, mode);
-    match impl_verdicts(seq, mode) {
+    let got = if custom {
+        impl_verdicts_cfg(seq, val::cfg(&val::CfgKey { mode: Some(mode), chip_count_ob: Some(7), ..Default::default() }))
+    } else {
+        impl_verdicts(seq, mode)
+    };
+    match got {
         Err(p) => Some((format!("panic-or-offset:{}", val::panic_site(&p)), p)),
         Ok(got) => {
             for (i, (g, w)) in got.iter().zip(want.iter()).enumerate() {
@@ -385,6 +399,33 @@ pub fn run(tier: Tier) -> i32 {
             });
         }
     }
+    // ---- (a') the same rules when a custom-checks file is in force (it must add its own checks, never replace the
+    //      target's): unmodified, every single-bit flip at RDH 4 and every boundary value, in the four modes
+    let mut cc_cases: Vec<(Vec<Rdh>, Mode, String)> = Vec::new();
+    for &mode in &modes {
+        cc_cases.push((base.clone(), mode, "unmodified".into()));
+        for bit in 0..512 {
+            let mut s = base.clone();
+            s[4] = flip(&s[4], bit);
+            cc_cases.push((s, mode, format!("flip bit {bit} at RDH 4")));
+        }
+        for (name, f) in &bnd {
+            let mut s = base.clone();
+            f(&mut s[4]);
+            cc_cases.push((s, mode, format!("{name} at RDH 4")));
+        }
+    }
+    let cc_results = par_map(&cc_cases, |_, (s, m, _)| compare_cfg(s, *m, true));
+    for ((s, m, label), r) in cc_cases.iter().zip(cc_results.iter()) {
+        if let Some((sig, d)) = r {
+            rep.violation(Violation {
+                signature: format!("rdh:custom-checks-file:{sig}"),
+                description: format!("{d} [{label}, mode {} with a custom-checks file that sets only chip_count_ob]", m.name()),
+                replay: json!({"kind": "enum", "custom": true, "mode": m.name(), "rdhs_hex": s.iter().map(|r| hex(&r.encode())).collect::<Vec<_>>()}),
+            });
+        }
+    }
+    rep.cov("enumeration_cases_with_custom_checks_file", json!(cc_cases.len()));
     // ---- (b) product search
     let sys = RunningProduct { cfg: val::mode_cfg(Mode::All) };
     let xr = xs::bfs(&sys, 40, 200_000, false);
@@ -429,7 +470,7 @@ pub fn replay(v: &serde_json::Value) -> i32 {
     if r["kind"] == "enum" {
         let seq: Vec<Rdh> = r["rdhs_hex"].as_array().unwrap().iter().map(|h| Rdh::decode(&fp_model::util::unhex(h.as_str().unwrap()))).collect();
         let mode = val::ALL_MODES.iter().copied().find(|m| m.name() == r["mode"].as_str().unwrap()).unwrap();
-        match compare(&seq, mode) {
+        match compare_cfg(&seq, mode, r["custom"].as_bool().unwrap_or(false)) {
             Some((s, d)) => {
                 println!("REPLAY: violation reproduced: {s}: {d}");
                 1
